@@ -155,6 +155,25 @@ def simulate_cases(work, module, constants, num, depth, seed, invariant="Emit", 
     return res, vals
 
 
+def run_apalache(module_path, init, inv, length=1, timeout=600):
+    """apalache-mc check on a typed wrapper module (spec/apalache/*.tla).  Returns "ok", "error" (invariant refuted)
+    or "unavailable: ..." - the caller decides what each outcome means."""
+    out_dir = os.path.join(WORKROOT, "apalache-%d" % os.getpid())
+    try:
+        p = subprocess.run(["apalache-mc", "check", "--init=" + init, "--inv=" + inv, "--length=%d" % length,
+                            "--out-dir=" + out_dir, module_path], stdout=subprocess.PIPE, stderr=subprocess.STDOUT,
+                           text=True, timeout=timeout, cwd=WORKROOT)
+    except (OSError, subprocess.TimeoutExpired) as e:
+        shutil.rmtree(out_dir, ignore_errors=True)
+        return "unavailable: %s" % type(e).__name__
+    shutil.rmtree(out_dir, ignore_errors=True)
+    if "EXITCODE: OK" in p.stdout:
+        return "ok"
+    if "Checker has found an error" in p.stdout:
+        return "error"
+    return "unavailable: " + " ".join(p.stdout.split()[-12:])
+
+
 _VAR = re.compile(r"^(?:/\\ )?(\w+) = ", re.M)
 
 
